@@ -115,3 +115,18 @@ def word_count(ws):
 
 def data_shape(n, ws):
     return (n,) + tuple(ws)
+
+
+def layout_nd(rng, a, kind=None):
+    """Same values of an n-D array in another memory layout: C, Fortran, transposed-buffer view, strided rows."""
+    kind = kind if kind is not None else int(rng.integers(4))
+    if kind == 0 or a.ndim < 2:
+        return np.ascontiguousarray(a)
+    if kind == 1:
+        return np.asfortranarray(a)
+    if kind == 2:
+        # view obtained by transposing a buffer stored with the axes reversed (e.g. a (words..., n) table transposed)
+        return np.ascontiguousarray(a.transpose(tuple(range(a.ndim))[::-1])).transpose(tuple(range(a.ndim))[::-1])
+    big = np.zeros((a.shape[0] * 2,) + a.shape[1:], dtype=a.dtype)
+    big[::2] = a
+    return big[::2]
